@@ -36,7 +36,7 @@ FLOORS = {"quick": {"positives": 1000, "negatives": 8000,
                     "negative_pairs": 800},
           "thorough": {"positives": 10000, "negatives": 200000,
                        "negative_pairs": 30000}}
-N_MODELS = {"quick": 300, "thorough": 12000}
+N_MODELS = {"quick": 700, "thorough": 12000}
 PAIRS = {"quick": 3, "thorough": 4}
 
 
